@@ -53,9 +53,11 @@ type Task struct {
 	w   *worker
 }
 
+//go:norace
 func (t *Task) String() string { return fmt.Sprintf("%s#%d", t.Name, t.Seq) }
 
 // Key orders tasks canonically.
+//go:norace
 func (t *Task) less(o *Task) bool {
 	if t.Name != o.Name {
 		return t.Name < o.Name
@@ -97,6 +99,7 @@ type poisonExit struct{}
 
 // Reset starts a new execution. Any task left over from the previous one must
 // have been killed (KillAll).
+//go:norace
 func Reset() {
 	for _, t := range tasks {
 		if !t.Done {
@@ -118,12 +121,15 @@ func Reset() {
 	ctl = newGate()
 }
 
+//go:norace
 func SetStrategy(s Strategy) { strat = s }
 
 // Cur returns the running managed task, or nil for the controller.
+//go:norace
 func Cur() *Task { return cur }
 
 // CurNode returns the node context of the caller.
+//go:norace
 func CurNode() int {
 	if cur != nil {
 		return cur.Node
@@ -131,6 +137,7 @@ func CurNode() int {
 	return CtlNode
 }
 
+//go:norace
 func CurInc() int {
 	if cur != nil {
 		return cur.Inc
@@ -140,8 +147,10 @@ func CurInc() int {
 
 // Poisoned reports whether the caller is a task being torn down; shim
 // primitives are no-ops for it.
+//go:norace
 func Poisoned() bool { return cur != nil && cur.Poisoned }
 
+//go:norace
 func render(args []any) string {
 	var b strings.Builder
 	for i, a := range args {
@@ -163,6 +172,7 @@ func render(args []any) string {
 }
 
 // Go is what every `go f(args)` statement of the library is rewritten to.
+//go:norace
 func Go(name string, fn func(), args ...any) {
 	if !Active {
 		go fn()
@@ -178,33 +188,29 @@ func Go(name string, fn func(), args ...any) {
 }
 
 // Spawn creates a managed task on behalf of the harness.
+//go:norace
 func Spawn(node int, name string, fn func()) *Task {
 	return newTask(node, NodeInc[node], fmt.Sprintf("n%d/%s", node, name), fn, nil)
 }
 
+//go:norace
 func newTask(node, inc int, name string, fn func(), args []any) *Task {
 	t := &Task{ID: nextID, Name: name, Seq: nameSeq[name], Node: node, Inc: inc, Args: args, fn: fn, g: newGate()}
 	nameSeq[name]++
 	nextID++
 	tasks = append(tasks, t)
+	if raceBuild {
+		// real fork edge from the spawning goroutine (the body parks on its gate)
+		t.started = true
+		go t.body()
+	}
 	return t
 }
 
+//go:norace
 func (t *Task) body() {
 	t.g.wait()
-	defer func() {
-		if r := recover(); r != nil {
-			if _, ok := r.(poisonExit); !ok {
-				buf := make([]byte, 4096)
-				n := runtime.Stack(buf, false)
-				Panics = append(Panics, fmt.Sprintf("%s: %v\n%s", t.String(), r, buf[:n]))
-			}
-		}
-		t.Done = true
-		t.ready = nil
-		cur = nil
-		ctl.open()
-	}()
+	defer t.finish()
 	if t.Poisoned {
 		return
 	}
@@ -212,6 +218,7 @@ func (t *Task) body() {
 }
 
 // Tasks returns the live tasks in canonical order.
+//go:norace
 func Tasks() []*Task {
 	out := make([]*Task, 0, len(tasks))
 	for _, t := range tasks {
@@ -223,6 +230,7 @@ func Tasks() []*Task {
 	return out
 }
 
+//go:norace
 func compact() {
 	j := 0
 	for _, t := range tasks {
@@ -240,6 +248,7 @@ func compact() {
 	tasks = tasks[:j]
 }
 
+//go:norace
 func enabledTasks() []*Task {
 	var out []*Task
 	for _, t := range tasks {
@@ -255,9 +264,11 @@ func enabledTasks() []*Task {
 }
 
 // Enabled returns the currently enabled tasks (controller use).
+//go:norace
 func Enabled() []*Task { return enabledTasks() }
 
 // resume hands control from the controller to t and waits until it comes back.
+//go:norace
 func resume(t *Task, why string) {
 	if cur != nil {
 		panic("vsched.resume: not in controller")
@@ -287,6 +298,7 @@ type worker struct {
 
 var pool []*worker
 
+//go:norace
 func startBody(t *Task) {
 	if raceBuild {
 		go t.body()
@@ -311,6 +323,7 @@ func startBody(t *Task) {
 }
 
 // toController parks the running task and gives control to the controller.
+//go:norace
 func toController(t *Task) {
 	cur = nil
 	ctl.open()
@@ -323,6 +336,7 @@ func toController(t *Task) {
 
 // Block parks the running task until ready() holds. Called from shim
 // primitives on the task's own goroutine.
+//go:norace
 func Block(kind string, obj any, ready func() bool) {
 	t := cur
 	if t == nil {
@@ -338,6 +352,7 @@ func Block(kind string, obj any, ready func() bool) {
 }
 
 // Yield is a scheduling point at which the running task stays enabled.
+//go:norace
 func Yield(point int) {
 	t := cur
 	if t == nil || !YieldPoints || t.Poisoned {
@@ -351,6 +366,7 @@ func Yield(point int) {
 
 // Run lets managed tasks run until none is enabled (quiescence) or maxSteps
 // resumptions happened. It returns false when the step cap was hit.
+//go:norace
 func Run(maxSteps int) bool {
 	if cur != nil {
 		panic("vsched.Run: not in controller")
@@ -395,6 +411,7 @@ func Run(maxSteps int) bool {
 }
 
 // RunTask resumes one specific enabled task until its next block/yield.
+//go:norace
 func RunTask(t *Task) {
 	resume(t, "runtask")
 }
@@ -402,6 +419,7 @@ func RunTask(t *Task) {
 // Kill poisons every live task of node (all nodes if node < -1 is not used;
 // pass pred) and lets each one unwind. Deferred library code runs against
 // no-op shims.
+//go:norace
 func Kill(pred func(*Task) bool) {
 	if cur != nil {
 		panic("vsched.Kill: not in controller")
@@ -425,14 +443,17 @@ func Kill(pred func(*Task) bool) {
 }
 
 // KillAll ends the execution.
+//go:norace
 func KillAll() {
 	Kill(func(*Task) bool { return true })
 }
 
 // Deactivate leaves scheduler mode (passthrough primitives).
+//go:norace
 func Deactivate() { Active = false; cur = nil }
 
 // Exit is what os.Exit in the library's logger is redirected to.
+//go:norace
 func Exit(code int) {
 	if !Active {
 		panic(fmt.Sprintf("vsched.Exit(%d) outside scheduler", code))
@@ -458,7 +479,28 @@ var RandHook func(n int64) int64
 // Interrupt makes the current Run return after the running task parks.
 var interrupted bool
 
+//go:norace
 func Interrupt() { interrupted = true }
 
 // Interrupted reports and clears the flag.
+//go:norace
 func Interrupted() bool { v := interrupted; interrupted = false; return v }
+
+
+// finish is the deferred tail of every task body (a named norace method: a
+// closure would be instrumented by the race detector).
+//
+//go:norace
+func (t *Task) finish() {
+	if r := recover(); r != nil {
+		if _, ok := r.(poisonExit); !ok {
+			buf := make([]byte, 4096)
+			n := runtime.Stack(buf, false)
+			Panics = append(Panics, fmt.Sprintf("%s: %v\n%s", t.String(), r, buf[:n]))
+		}
+	}
+	t.Done = true
+	t.ready = nil
+	cur = nil
+	ctl.open()
+}
